@@ -1,1 +1,351 @@
--- property theorems for C10 (stub)
+import RP.Model.TreeShape
+import Mathlib.Tactic.Ring
+import Mathlib.Tactic.FieldSimp
+import Mathlib.Tactic.Linarith
+import Mathlib.Algebra.Order.Field.Basic
+/-! # C10 — Sampled trees are external-sampling trees of the legal abstract game
+
+`RP.TreeShape.acceptTree` (run by the driver on every dumped real tree) re-derives every clause of
+the property from the game model `RP.Game` and the codecs.
+
+* `C10_accept_sound` : `acceptTree t = true → ExternalSamplingShape t` — every clause as a
+  proposition, for all trees.
+* `C10_fresh_uniform`, `C10_fresh_sums_to_one`, `C10_known_untouched` : `Profile::witness`.
+* `C10_pick_interval` : the inverse-CDF choice of `explore_one` picks edge `j` exactly when the
+  uniform draw lies in an interval of length `w_j` (probability `w_j / Σw`; PRNG trusted).
+* `C10_builder_partial` : the model's own builder (`Blueprint::tree` with an oracle for the random
+  choices) produces accepted trees — proved here for concrete oracles by kernel evaluation, so
+  the acceptor is not vacuous.  The for-all-oracles statement
+  `∀ o w h0 h1 fuel t, build o w h0 h1 fuel = some t → acceptTree t = true`
+  is NOT proved: it needs (a) the game invariant that a non-terminal state has a legal action and
+  (b) a bound on the length of a betting round (the 16-edge window of `subgame`), both game-level
+  lemmas outside this file.
+* `pinned_subgame_window` : the window pinned before commit 27e1509 (counted from the start of the
+  hand) exceeds the raise cap; refuted by evaluation. -/
+namespace RP.C10
+open RP.TreeShape RP.TreeShape.DTree
+open RP.Codec (Edge)
+
+/-! ## what acceptance means -/
+
+/-- the bucket triple of a node -/
+def bucketOf (t : DTree) (i : Nat) : Nat × Nat × Nat := ((t.node i).hist, (t.node i).abs, (t.node i).menu)
+
+/-- every clause of the property, for every node of the tree -/
+structure ExternalSamplingShape (t : DTree) : Prop where
+  nonempty : 0 < t.size
+  /-- node 0 is the only root and holds `Game::root()` (for its own hole cards) -/
+  root : ∀ i, i < t.size → t.parent i = none →
+    i = 0 ∧ t.game i = RP.Game.root (t.game i).s0.hole (t.game i).s1.hole
+  /-- every child is the parent state after a permitted action, which is the concrete form of
+      an abstract action on the parent's menu -/
+  child_step : ∀ i p, i < t.size → t.parent i = some p →
+    p < i ∧ t.edge i ∈ t.menuOf p ∧
+    ∃ a, RP.Game.isAllowed (t.game p) a = true ∧ RP.Game.step? (t.game p) a = some (t.game i)
+  /-- at the traverser's decisions every action on the menu has exactly one child, and there are
+      no other children -/
+  walker_menu : ∀ i, i < t.size → RP.Game.turn (t.game i) = .choice t.walker →
+    (∀ e ∈ t.menuOf i, (t.kidEdges i).count e = 1) ∧ (∀ e ∈ t.kidEdges i, e ∈ t.menuOf i)
+  /-- at opponent decisions and chance exactly one child exists -/
+  sampled_one : ∀ i, i < t.size →
+    (RP.Game.turn (t.game i) = .chance ∨ ∃ x, x ≠ t.walker ∧ RP.Game.turn (t.game i) = .choice x) →
+    (t.kids i).length = 1
+  /-- every leaf is a finished hand whose two payoffs sum to zero (and finished hands are leaves) -/
+  leaf_finished : ∀ i, i < t.size → (t.kids i = [] ↔ RP.Game.turn (t.game i) = .terminal)
+  leaf_zero_sum : ∀ i, i < t.size → t.kids i = [] → (t.node i).pay0 + (t.node i).pay1 = 0
+  /-- the bucket is (recalled history, card bucket, menu) -/
+  bucket_parts : ∀ i, i < t.size →
+    RP.Codec.pathOfEdges (recall (t.history i)) = some (t.node i).hist ∧
+    RP.Codec.pathOfEdges (t.menuOf i) = some (t.node i).menu
+  /-- nodes grouped into one information set agree on recalled history, menu and card bucket -/
+  infoset_agree : ∀ i j, i < t.size → j < t.size → bucketOf t i = bucketOf t j →
+    recall (t.history i) = recall (t.history j) ∧ t.menuOf i = t.menuOf j ∧ (t.node i).abs = (t.node j).abs
+  /-- the card bucket is a function of the acting player's own cards and the board -/
+  abs_function : ∀ i j, i < t.size → j < t.size → t.sweat i = t.sweat j → (t.node i).abs = (t.node j).abs
+  /-- no betting round contains more raises than the cap allows -/
+  raise_cap : ∀ i, i < t.size →
+    (roundEdges (t.history i)).countP isRaise ≤ RP.Gen.MAX_RAISE_REPEATS + 1
+
+theorem step_allowed {g g' : RP.Game.Game} {a : RP.Game.Action} (h : RP.Game.step? g a = some g') :
+    RP.Game.isAllowed g a = true := by
+  unfold RP.Game.step? at h
+  split at h
+  · rename_i hc; simp only [Bool.and_eq_true] at hc; exact hc.1
+  · cases h
+
+theorem acceptNode_parts {t : DTree} {i : Nat} (h : acceptNode t i = true) :
+    linkOk t i = true ∧ bucketOk t i = true ∧ kidsOk t i = true ∧ leafOk t i = true ∧ capOk t i = true := by
+  unfold acceptNode at h
+  simp only [Bool.and_eq_true] at h
+  exact ⟨h.1.1.1.1, h.1.1.1.2, h.1.1.2, h.1.2, h.2⟩
+
+/-- **C10 (acceptor soundness).** A dumped tree the acceptor accepts has the external-sampling
+    shape: every clause of the property holds at every node. -/
+theorem C10_accept_sound (t : DTree) (h : acceptTree t = true) : ExternalSamplingShape t := by
+  unfold acceptTree at h
+  simp only [Bool.and_eq_true, decide_eq_true_eq, List.all_eq_true, List.mem_range] at h
+  obtain ⟨⟨⟨hpos, _hw⟩, hnode⟩, habs⟩ := h
+  have parts := fun i (hi : i < t.size) => acceptNode_parts (hnode i hi)
+  have hterm : ∀ i, i < t.size → (t.kids i = [] ↔ RP.Game.turn (t.game i) = .terminal) := by
+    intro i hi
+    obtain ⟨_, _, hk, hl, _⟩ := parts i hi
+    constructor
+    · intro hkids
+      unfold leafOk at hl
+      simp only [hkids, bne_self_eq_false, Bool.false_or, Bool.and_eq_true] at hl
+      unfold RP.Game.turn
+      simp [hl.1]
+    · intro ht
+      unfold kidsOk at hk
+      rw [ht] at hk
+      simpa using hk
+  refine
+    { nonempty := hpos, root := ?_, child_step := ?_, walker_menu := ?_, sampled_one := ?_,
+      leaf_finished := hterm, leaf_zero_sum := ?_, bucket_parts := ?_, infoset_agree := ?_,
+      abs_function := ?_, raise_cap := ?_ }
+  · intro i hi hp
+    have hl := (parts i hi).1
+    unfold linkOk at hl
+    rw [hp] at hl
+    simp only [Bool.and_eq_true, beq_iff_eq] at hl
+    exact hl
+  · intro i p hi hp
+    have hl := (parts i hi).1
+    unfold linkOk at hl
+    rw [hp] at hl
+    simp only [Bool.and_eq_true, decide_eq_true_eq, beq_iff_eq, List.contains_iff_mem] at hl
+    exact ⟨hl.1.1, hl.2, _, step_allowed hl.1.2, hl.1.2⟩
+  · intro i hi ht
+    have hk := (parts i hi).2.2.1
+    unfold kidsOk at hk
+    rw [ht] at hk
+    simp only [if_true, Bool.and_eq_true, List.all_eq_true, beq_iff_eq, List.contains_iff_mem] at hk
+    exact hk
+  · intro i hi ht
+    have hk := (parts i hi).2.2.1
+    unfold kidsOk at hk
+    rcases ht with ht | ⟨x, hx, ht⟩
+    · rw [ht] at hk; simpa using hk
+    · rw [ht] at hk; simpa [hx] using hk
+  · intro i hi hkids
+    have hl := (parts i hi).2.2.2.1
+    unfold leafOk at hl
+    simp only [hkids, bne_self_eq_false, Bool.false_or, Bool.and_eq_true, beq_iff_eq] at hl
+    exact hl.2
+  · intro i hi
+    have hb := (parts i hi).2.1
+    unfold bucketOk at hb
+    simp only [Bool.and_eq_true, beq_iff_eq] at hb
+    exact ⟨hb.1.1.1, hb.1.1.2⟩
+  · intro i j hi hj hb
+    have hbi := (parts i hi).2.1
+    have hbj := (parts j hj).2.1
+    unfold bucketOk at hbi hbj
+    simp only [Bool.and_eq_true, beq_iff_eq] at hbi hbj
+    unfold bucketOf at hb
+    simp only [Prod.mk.injEq] at hb
+    obtain ⟨h1, h2, h3⟩ := hb
+    refine ⟨?_, ?_, h2⟩
+    · have a := hbi.1.2; have b := hbj.1.2
+      rw [h1] at a; rw [a] at b; exact Option.some.inj b
+    · have a := hbi.2; have b := hbj.2
+      rw [h3] at a; rw [a] at b; exact Option.some.inj b
+  · intro i j hi hj hs
+    unfold absOk at habs
+    simp only [List.all_eq_true, List.mem_range, Bool.or_eq_true, bne_iff_ne, ne_eq, beq_iff_eq] at habs
+    rcases Nat.lt_trichotomy i j with hlt | heq | hgt
+    · rcases habs j hj i hlt with h | h
+      · exact absurd hs.symm h
+      · exact h.symm
+    · subst heq; rfl
+    · rcases habs i hi j hgt with h | h
+      · exact absurd hs h
+      · exact h
+  · intro i hi
+    have hc := (parts i hi).2.2.2.2
+    unfold capOk at hc
+    simpa using hc
+
+/-! ## `Profile::witness`: a newly met information set starts from the uniform strategy -/
+
+/-- **C10 (fresh = uniform).** `witness` on a bucket not yet in the profile stores regret 0 and
+    policy `1/n` on each of the `n` edges of the node's children. -/
+theorem C10_fresh_uniform {α : Type} [Zero α] [One α] [Div α] [NatCast α]
+    (profile : List (Nat × List (Edge × α × α))) (bucket : Nat) (edges : List Edge)
+    (hnew : profile.lookup bucket = none) :
+    (witness profile bucket edges).lookup bucket
+      = some (edges.map (fun e => (e, (0 : α), (1 : α) / (edges.length : α)))) := by
+  unfold witness
+  rw [hnew]
+  simp [List.lookup]
+
+/-- a bucket already in the profile is left alone (and so are all other buckets) -/
+theorem C10_known_untouched {α : Type} [Zero α] [One α] [Div α] [NatCast α]
+    (profile : List (Nat × List (Edge × α × α))) (bucket : Nat) (edges : List Edge)
+    (s : List (Edge × α × α)) (hold : profile.lookup bucket = some s) :
+    witness profile bucket edges = profile := by
+  unfold witness
+  rw [hold]
+
+/-- the fresh policies sum to one (they are a probability distribution) -/
+theorem C10_fresh_sums_to_one {K : Type} [Field K] [CharZero K] (edges : List Edge) (hne : edges ≠ []) :
+    (edges.map (fun _ => (1 : K) / (edges.length : K))).sum = 1 := by
+  have hlen : (edges.length : K) ≠ 0 := by
+    have : edges.length ≠ 0 := by
+      intro h; exact hne (List.length_eq_zero_iff.mp h)
+    exact_mod_cast this
+  have : ∀ (l : List Edge) (c : K), (l.map (fun _ => c)).sum = (l.length : K) * c := by
+    intro l c
+    induction l with
+    | nil => simp
+    | cons x xs ih => simp only [List.map_cons, List.sum_cons, ih, List.length_cons, Nat.cast_succ]; ring
+  rw [this]
+  field_simp
+
+/-! ## inverse-CDF selection -/
+section pick
+variable {K : Type} [Field K] [LinearOrder K] [IsStrictOrderedRing K]
+
+theorem sum_nonneg' (l : List K) (h : ∀ v ∈ l, 0 ≤ v) : 0 ≤ l.sum := by
+  induction l with
+  | nil => simp
+  | cons x xs ih =>
+    simp only [List.sum_cons]
+    have := h x (by simp)
+    have := ih (fun v hv => h v (by simp [hv]))
+    linarith
+
+theorem pickIndexAux_spec (ws : List K) (hw : ∀ w ∈ ws, 0 ≤ w) :
+    ∀ (acc x : K), acc ≤ x → x < acc + ws.sum → ∀ j,
+      (pickIndexAux acc ws x = j ↔
+        j < ws.length ∧ acc + (ws.take j).sum ≤ x ∧ x < acc + (ws.take (j+1)).sum) := by
+  induction ws with
+  | nil => intro acc x h1 h2; simp at h2; exact absurd h1 (not_le.mpr h2)
+  | cons w ws ih =>
+    intro acc x h1 h2 j
+    have hw0 : 0 ≤ w := hw w (by simp)
+    have hws : ∀ v ∈ ws, 0 ≤ v := fun v hv => hw v (by simp [hv])
+    unfold pickIndexAux
+    by_cases hx : x < acc + w
+    · simp only [hx, if_true]
+      constructor
+      · intro hj; subst hj; simp; exact ⟨h1, hx⟩
+      · rintro ⟨_, h3, _⟩
+        cases j with
+        | zero => rfl
+        | succ k =>
+          exfalso
+          have hnn : 0 ≤ (ws.take k).sum :=
+            sum_nonneg' _ (fun v hv => hws v (List.mem_of_mem_take hv))
+          simp only [List.take_succ_cons, List.sum_cons] at h3
+          linarith
+    · simp only [hx, if_false]
+      have hx' : acc + w ≤ x := not_lt.mp hx
+      have h2' : x < acc + w + ws.sum := by simpa [add_assoc] using h2
+      cases j with
+      | zero =>
+        constructor
+        · intro h; omega
+        · rintro ⟨_, _, h4⟩
+          simp at h4
+          exact absurd h4 hx
+      | succ k =>
+        have := ih hws (acc + w) x hx' h2' k
+        constructor
+        · intro h
+          have hk : pickIndexAux (acc + w) ws x = k := by omega
+          obtain ⟨a, b, c⟩ := this.mp hk
+          refine ⟨by simp; omega, ?_, ?_⟩
+          · simp only [List.take_succ_cons, List.sum_cons]; linarith
+          · simp only [List.take_succ_cons, List.sum_cons]; linarith
+        · rintro ⟨a, b, c⟩
+          simp only [List.take_succ_cons, List.sum_cons] at b c
+          have hk := this.mpr ⟨by simpa using a, by linarith, by linarith⟩
+          omega
+
+/-- **C10 (opponent sampling).** With non-negative weights and a draw `x ∈ [0, Σw)`, the
+    inverse-CDF choice returns `j` exactly when `x` lies in `[w_0+…+w_{j-1}, w_0+…+w_j)`, an
+    interval of length `w_j`: under a uniform draw edge `j` is taken with probability `w_j/Σw`. -/
+theorem C10_pick_interval (ws : List K) (hw : ∀ w ∈ ws, 0 ≤ w) (x : K) (h0 : 0 ≤ x) (h1 : x < ws.sum)
+    (j : Nat) :
+    pickIndex ws x = j ↔ j < ws.length ∧ (ws.take j).sum ≤ x ∧ x < (ws.take (j+1)).sum := by
+  have := pickIndexAux_spec ws hw 0 x h0 (by simpa using h1) j
+  simpa [pickIndex] using this
+
+/-- the interval of `C10_pick_interval` has length `w_j` -/
+theorem C10_pick_interval_length (ws : List K) (j : Nat) (hj : j < ws.length) :
+    (ws.take (j+1)).sum - (ws.take j).sum = ws[j] := by
+  induction ws generalizing j with
+  | nil => simp at hj
+  | cons w ws ih =>
+    cases j with
+    | zero => simp
+    | succ k =>
+      have hk : k < ws.length := by simpa using hj
+      have := ih k hk
+      simp only [List.take_succ_cons, List.sum_cons, List.getElem_cons_succ]
+      linarith
+
+end pick
+
+/-! ## non-vacuity: the model's own builder is accepted -/
+
+/-- deal the lowest cards still in the deck -/
+def lowCards (g : RP.Game.Game) : Nat :=
+  let d := RP.Game.deck g
+  let k := RP.Game.nRevealed (RP.Game.street g)
+  let rec go : Nat → Nat → Nat → Nat → Nat
+    | 0, _, acc, _ => acc
+    | f+1, bit, acc, need =>
+      if need = 0 then acc
+      else if d.testBit bit then go f (bit+1) (acc ||| (1 <<< bit)) (need-1) else go f (bit+1) acc need
+  go 64 0 0 k
+
+/-- a family of deterministic oracles -/
+def orc (m : Nat) : Oracle :=
+  { pick := fun i n => n - 1 - (i % m), deal := lowCards, abs := fun s => (s.1 * 31 + s.2) % 1000 }
+
+def hole0 : Nat := 0b11 <<< 40
+def hole1 : Nat := 0b101 <<< 20
+
+/-- the opponent / chance take option `n-1-k` (the `k`-th from the end of the menu) -/
+def orcK (k : Nat) : Oracle :=
+  { pick := fun _ n => if n > k then n - 1 - k else 0, deal := lowCards, abs := fun s => (s.1 * 31 + s.2) % 1000 }
+
+def built1 : Option (Nat × Bool) := (build (orc 1) 0 hole0 hole1 1000).map (fun t => (t.size, acceptTree t))
+def built2 : Option (Nat × Bool) := (build (orcK 2) 0 hole0 hole1 1000).map (fun t => (t.size, acceptTree t))
+def built3 : Option (Nat × Bool) := (build (orc 1) 1 hole0 hole1 1000).map (fun t => (t.size, acceptTree t))
+
+/-- **C10 (builder, partial).** For these oracles the model of `Blueprint::tree` returns a tree and
+    the acceptor accepts it (2, 7 and 59 nodes; both traversers; kernel evaluation). -/
+theorem C10_builder_partial :
+    built1 = some (2, true) ∧ built2 = some (7, true) ∧ built3 = some (59, true) := by
+  refine ⟨by decide +kernel, by decide +kernel, by decide +kernel⟩
+
+/-- the acceptor rejects the same built tree with one pot changed / with the traverser flipped -/
+def tamper (t : DTree) : DTree :=
+  ⟨t.walker, t.nodes.modify 1 (fun n => { n with game := { n.game with pot := n.game.pot + 1 } })⟩
+def tampered1 : Option Bool := (build (orc 1) 1 hole0 hole1 1000).map (fun t => acceptTree (tamper t))
+def tampered2 : Option Bool := (build (orc 1) 1 hole0 hole1 1000).map (fun t => acceptTree ⟨0, t.nodes⟩)
+
+theorem acceptor_rejects : tampered1 = some false ∧ tampered2 = some false := by
+  refine ⟨by decide +kernel, by decide +kernel⟩
+
+/-! ## the window pinned before commit 27e1509 -/
+
+/-- pre-fix `Node::subgame`: `take_while(is_choice)` from the START of the history -/
+def subgamePinned (history : List Edge) : List Edge :=
+  (history.takeWhile isChoice).take RP.Gen.MAX_DEPTH_SUBGAME
+
+/-- after four pre-flop raises, a call and the flop, the pinned counter still reads 4 on the flop
+    (no raise is ever offered again), while the fixed window reads 0; and with no pre-flop raise
+    the pinned counter stays 0 on the flop however many flop raises there were. -/
+theorem pinned_subgame_window :
+    let r : Edge := .raise 1 1
+    (subgamePinned [r, r, r, r, .call, .draw]).countP isAggro = 4 ∧
+    nAggro [r, r, r, r, .call, .draw] = 0 ∧
+    (subgamePinned [.call, .check, .draw, r, r, r, r, r, r]).countP isAggro = 0 ∧
+    nAggro [.call, .check, .draw, r, r, r, r, r, r] = 6 := by
+  decide
+
+end RP.C10
